@@ -84,13 +84,22 @@ def main():
     res["demo_with_change"] = "fails" if rc1 not in (0, None) else "PASSES"
     caught = []
     reports = []
-    for p in PROPS:
-        rc, out = sh("/verif/bin/zogcheck -prop %s -repo %s -verif /verif" % (p, t))
-        if rc != 0:
-            caught.append(p)
-            for l in out.splitlines():
-                if l.startswith(("VIOLATED", "UNDECIDED", "BROKEN")):
-                    reports.append(l[:300].replace(t + "/", ""))
+    # one process for all 20 checks (one load of the tree); evidence goes to a scratch verif dir
+    sv = tempfile.mkdtemp(prefix="skv.", dir="/tmp")
+    shutil.copy("/verif/known_findings.json", sv)
+    rc, out = sh("/verif/bin/zogcheck -prop all -repo %s -verif %s" % (t, sv))
+    shutil.rmtree(sv, ignore_errors=True)
+    if len(re.findall(r"^C\d\d quick:", out, re.M)) != 20:
+        print("seedkeep: the checks did not all run (rc=%s): %s" % (rc, out[-300:]))
+        drop(t)
+        return 2
+    for l in out.splitlines():
+        m = re.match(r"^(VIOLATED|UNDECIDED) (C\d\d)/", l) or re.match(r"^(BROKEN-CHECK) property=(C\d\d)", l)
+        if m:
+            if m.group(2) not in caught:
+                caught.append(m.group(2))
+            reports.append(l[:300].replace(t + "/", ""))
+    caught.sort()
     drop(t)
     res["caught_by_checks"] = caught
     res["reports"] = reports[:12]
